@@ -5,6 +5,7 @@ import io
 
 from .. import spec
 from ..core import Result
+from ..values import attr_names
 from ..valuework import plan_items, replay_value, run_value_shard
 from .c01 import carrier_sig, isolate
 
@@ -112,6 +113,41 @@ def _variants(b, bp, mi, tree, rng, cls):
         return cls().parse(b"".join(raws))
 
     yield "nested-unknown", with_nested_unknown
+
+    def measured_then_grown(t):
+        """a history on ONE object: measure it, let it grow through its containers / descendants only (no attribute of
+        the message itself is assigned), measure again"""
+        import betterproto
+
+        m = bp.make(mi, t, "ctor")
+        len(m), bytes(m), len(m)
+
+        def grow(x, xmi, depth=0):
+            names = attr_names(type(x))
+            grew = False
+            for fi in xmi.fields:
+                if fi.number not in names:
+                    continue
+                try:
+                    v = getattr(x, names[fi.number])
+                except AttributeError:
+                    continue
+                if fi.label == "repeated" and v:
+                    v.append(v[0])
+                    grew = True
+                elif fi.label == "map" and v and fi.map_key.kind == "string":
+                    k0 = next(iter(v))
+                    v[k0 + "+grown"] = v[k0]
+                    grew = True
+                elif fi.label == "singular" and fi.kind == "message" and fi.wkt is None and depth < 2 and betterproto.serialized_on_wire(v):
+                    grew = grow(v, b.msgs[fi.type_name], depth + 1) or grew
+            return grew
+
+        if not grow(m, mi):
+            raise ValueError("nothing to grow")
+        return m
+
+    yield "measured-then-grown", measured_then_grown
 
 
 def check_negzero(b, mi, res: Result, w):
